@@ -110,10 +110,16 @@ func (a *Aggregator) aggregate(ctx context.Context, pubkey core.PubKey, parSigs 
 	// Get all partial signatures.
 	blsSigs := make(map[int]tbls.Signature)
 
+	var repeated bool
+
 	for _, parSig := range parSigs {
 		sig, err := tblsconv.SigFromCore(parSig.Signature())
 		if err != nil {
 			return nil, errors.Wrap(err, "signature from core")
+		}
+
+		if _, ok := blsSigs[parSig.ShareIdx]; ok {
+			repeated = true
 		}
 
 		blsSigs[parSig.ShareIdx] = sig
@@ -121,6 +127,12 @@ func (a *Aggregator) aggregate(ctx context.Context, pubkey core.PubKey, parSigs 
 
 	if len(blsSigs) < a.threshold {
 		return nil, errors.New("number of partial signatures less than threshold", z.Int("threshold", a.threshold), z.Int("got", len(blsSigs)))
+	}
+
+	// Each share contributes at most one partial signature: with a repeated share index one of its
+	// partials would silently replace the other (an invalid one could be dropped unnoticed).
+	if repeated {
+		return nil, errors.New("repeated share index in partial signatures", z.Int("got", len(parSigs)), z.Int("distinct", len(blsSigs)))
 	}
 
 	// Aggregate signatures
